@@ -208,6 +208,29 @@ pub fn run(tier: Tier) -> Run {
             }
         }
         run.outcome("same_type_conversion_pairs", same);
+        // long repetition: 5 000 conversions of the same declared value (70 000 for every 25th), then EVERY number of
+        // 0..=8191 and the value's neighbourhood: a conversion does not depend on how often a value was converted before
+        {
+            use rayon::prelude::*;
+            let work: Vec<(usize, u32, usize)> = enum_ops.iter().enumerate().flat_map(|(xi, _)| decl[xi].iter().copied().enumerate().map(move |(k, a)| (xi, a, k))).collect();
+            let bad: Vec<crate::report::Viol> = work
+                .par_iter()
+                .filter_map(|&(xi, a, k)| {
+                    let x = &enum_ops[xi];
+                    let reps = if k % 25 == 0 { 70_000 } else { 5_000 };
+                    for _ in 0..reps {
+                        let _ = (x.sweep)(a as u64, a as u64, &decl[xi]);
+                    }
+                    let (_, bad) = (x.sweep)(0, 8191, &decl[xi]);
+                    let (_, bad2) = (x.sweep)((a as u64).saturating_sub(300), a as u64 + 5000, &decl[xi]);
+                    bad.into_iter().chain(bad2).next().map(|(m, why)| viol(format!("C08:{}:from_u32:after-long-repetition", x.name), format!("{}::from_u32({}) after {} conversions of {} {}", x.name, m, reps, a, why), json!({"kind": "c08-repeat", "type": x.name, "repeated": a, "times": reps, "then": m})))
+                })
+                .collect();
+            run.outcome("long_repetition_then_sweep", work.len() as u64);
+            for v in bad.into_iter().take(5) {
+                run.add(v);
+            }
+        }
     }
     // ---- number sweeps -------------------------------------------------------------------
     enum Task<'a> {
@@ -296,6 +319,37 @@ pub fn run(tier: Tier) -> Run {
                     }
                 }
                 (e.name.to_string(), 65536u64, acc, bad)
+            })
+            .collect();
+        results.extend(extra);
+    }
+    // every number whose low 24 bits are a value declared by ANY enumeration (not only the one asked) under every top byte
+    // 0..=255, and with each of the bits 16..24 set on top: a key packed from "which enumeration" and "which number"
+    {
+        let mut lows: Vec<u32> = g.enums.values().flat_map(|e| e.declared().into_iter()).filter(|n| *n < (1 << 24)).collect();
+        lows.sort();
+        lows.dedup();
+        let work: Vec<(&EnumOps, Vec<u32>)> = enum_ops.iter().map(|e| (e, g.enums[e.name].declared().into_iter().collect::<Vec<u32>>())).collect();
+        let extra: Vec<(String, u64, u64, Vec<(u32, &'static str)>)> = work
+            .par_iter()
+            .map(|(e, d)| {
+                let mut acc = 0u64;
+                let mut n = 0u64;
+                let mut bad = vec![];
+                for &low in &lows {
+                    for top in 0..=255u32 {
+                        for mid in [0u32, 1 << 16, 1 << 20, 1 << 23] {
+                            let x = ((top << 24) | mid | low) as u64;
+                            let (a, b) = (e.sweep)(x, x, d);
+                            acc += a;
+                            n += 1;
+                            if bad.len() < 4 {
+                                bad.extend(b);
+                            }
+                        }
+                    }
+                }
+                (e.name.to_string(), n, acc, bad)
             })
             .collect();
         results.extend(extra);
